@@ -11,7 +11,7 @@ PROP = dict(
                 "really served for that name, never missing an install completed before the read, and per reader and name the values follow the install order; the monitor reads_ok is sound for "
                 "these three clauses. Tied to the code by scenarios with 2-5 reader goroutines spinning on handles of declared, looked-up and start-up-cache names while the driver changes the service, "
                 "refreshes (two concurrent refreshers + a controlled ticker), looks up new names, HOLDS the service with a poll and a lookup in flight (readers must keep completing reads), runs failing "
-                "polls, runs an expiry sweep with a handle taken between snapshot and apply, creates Updaters (watchers) on declared and looked-up names that are never or only rarely drained while their secrets get new versions in consecutive polls (the takes observed in quiescent windows are judged by Store.v's notify/ready_take in the kernel; every Refresh/NewUpdater/Close of the driver is bounded and a hang is a direct verdict), re-activates OLDER versions (a value may be installed several times), makes the cache's Write FAIL during polls, during lookups and at the poller's final flush, and closes the store (reads go on, also after a failed final flush); values are 200-1500 byte strings encoding (name, version) with a checksum "
+                "polls, runs an expiry sweep with a handle taken between snapshot and apply, uses unclean secret names (svc//key, a/../b, ./x, team/token/) next to their cleaned twins with different values, looks up new names with an ALREADY-ENDED context (error, nothing installed, later live lookup works), creates Updaters (watchers) on declared and looked-up names that are never or only rarely drained while their secrets get new versions in consecutive polls (the takes observed in quiescent windows are judged by Store.v's notify/ready_take in the kernel; every Refresh/NewUpdater/Close of the driver is bounded and a hang is a direct verdict), re-activates OLDER versions (a value may be installed several times), makes the cache's Write FAIL during polls, during lookups and at the poller's final flush, and closes the store (reads go on, also after a failed final flush); values are 200-1500 byte strings encoding (name, version) with a checksum "
                 "and are verified whole by the reader; install order = the service's serve order; each read is logged with the number of installs known complete before it began; the kernel evaluates "
                 "the monitor. PARTIAL: data-race freedom and absence of torn values are runtime facts - tested with -race (GORACE halt_on_error; a report is a direct violation) and whole-value "
                 "verification, not proved."),
